@@ -126,6 +126,51 @@ CHECKS.update({
         technique="TLA+ spec model-checked by TLC + replay of TLC behaviours on the real buffer + TLC monitor"),
 })
 
+ADV_NOTE = ("One corrupted party, which runs the honest code and deviates in the messages it sends (and in tapped internal bits). "
+            "The deviation space is the one enumerated by Adversary.tla: fixed representatives per malformation class, sampled "
+            "indices inside long vectors. Cryptographic assumptions (hash, AEAD, OT) are not checked.")
+ADV_TECH = ("TLA+ spec (Skeleton + Adversary) enumerated by TLC into deviation scenarios, each replayed on the real mpc() under the "
+            "deterministic executor through an adversarial channel; TLC property monitor Mon_Adv")
+CHECKS.update({
+    "C02": dict(
+        category="fault_enumeration", design_ref="DESIGN.md 4 C02",
+        text="Every scenario of all three families of Adversary.tla (malformed messages, tampered online fields, tampered "
+             "preprocessing values; corrupted garbler and corrupted evaluator; n=2 and n=3) is replayed on the real code; Mon_Adv "
+             "computes with ClearEval the set of values explainable by SOME input of the corrupted party and requires every honest "
+             "Ok output to lie in it, with one common explanation for all honest output parties; honest non-output parties return "
+             "no bits. Scenarios that omit or forge optional values are repeated, as they only show when a hidden bit is 1.",
+        note=ADV_NOTE, technique=ADV_TECH),
+    "C03": dict(
+        category="fault_enumeration", design_ref="DESIGN.md 4 C03",
+        text="Adversary.tla derives from the circuit every authenticated field of the online phase: mask-share bit and MAC per "
+             "input register and recipient, per output register and output party; every input label; row ciphertext bits of every "
+             "AND gate (all four rows); the share a garbler encrypts into a row (tap); the evaluator's revealed value and label per "
+             "output register and recipient; equivocated masked inputs (n=3). One replay per field; Mon_Adv requires the consuming "
+             "honest party to return Err (a panic or Ok is a violation).",
+        note=ADV_NOTE, technique=ADV_TECH),
+    "C04": dict(
+        category="fault_enumeration", design_ref="DESIGN.md 4 C04",
+        text="(a) Adversary.tla lists the values checked by each preprocessing verification step (coin-toss commitment/opening, "
+             "aBit test bit and MAC, aShare commitments / decommitment bit and MAC / opened key sum, HaAND bits, LaAND e bit, "
+             "commitment and check value, d-value bit and MAC, Beaver d/e and MACs, KOS check values, OT corrections, OT matrix, "
+             "base-OT points and ciphertexts, broadcast equivocation) at first/middle/last index, to one recipient, to all "
+             "consistently, once or persistently; Mon_Adv requires Err at every honest recipient. (b) commit-before-reveal is an "
+             "invariant of MC_Sched over all interleavings and is monitored (Mon_C04b) on the operation traces of real runs under "
+             "adversarial schedulers. (c) challenge-after-data is examined by Mon_C04c on probe values against a predictor fed "
+             "with the coin-toss openings seen on the wire.",
+        note=ADV_NOTE, technique=ADV_TECH + "; TLC invariant NoEarlyReveal + trace monitors Mon_C04b / Mon_C04c"),
+    "C08": dict(
+        category="fault_enumeration", design_ref="DESIGN.md 4 C08",
+        text="For every message the corrupted party sends (position in the skeleton of Skeleton.tla) and every malformation "
+             "class -- empty, truncated at 1 / half / last byte, bit flips in the length prefix / payload / last byte, appended "
+             "bytes, random bytes of the same and of a short length, outer vector shortened / lengthened / emptied, inner vectors "
+             "shortened / lengthened / emptied, out-of-range booleans, optional fields dropped / added -- and for the sender "
+             "vanishing instead of sending it, the real code runs under an executor with exact hang detection, catch_unwind and a "
+             "counting allocator; Mon_Adv rejects panic, hang and allocation out of proportion to the bytes received.",
+        note=ADV_NOTE + " Allocation is observed per run (all parties of the run share a thread), not modelled.",
+        technique=ADV_TECH),
+})
+
 NA = {}
 
 
